@@ -374,3 +374,98 @@ func vh_C14_L8_close_after_a_timed_out_read_still_resets() {
 
 // C14.L9: end-of-file is final also for a reader that arms or clears its deadline afterwards (= C18.L4).
 func vh_C14_L9_deadline_after_eof_keeps_eof() { vh_C18_L4_read_deadline() }
+
+// C14.L10: a repeated reset request does not hit the next incarnation. The peer closed its
+// direction of stream 4: the request is performed (end-of-file for the reader) and answered;
+// the answer is lost. The peer, whose own side of the stream has been reset as well, opens
+// the identifier again and sends a message on it (a new stream is created here); then its
+// reconfiguration timer repeats the old request (same request sequence number). The repeat
+// is answered again but must not be performed again: the new incarnation, which the peer
+// never closed, keeps its message readable and gets no end-of-file.
+// (RFC 6525 5.2.1: a request whose sequence number was already processed is a retransmission.)
+func vh_C14_L10_repeated_reset_request_spares_the_new_incarnation() {
+	a, _ := vNewAssoc()
+	cum := a.peerLastTSN()
+	vassert(vDeliver(a, vDataChunk(a, cum+1, 4, false, 1)) == nil, "DATA ok")
+	old := a.streams[4]
+	req := &paramOutgoingResetRequest{reconfigRequestSequenceNumber: nondetU32(), senderLastTSN: cum + 1, streamIdentifiers: []uint16{4}}
+	vassert(vDeliver(a, &chunkReconfig{paramA: req}) == nil, "RECONFIG ok")
+	_, still := a.streams[4]
+	vassert(!still && old.readErr == io.EOF, "the reset is performed: end-of-file for the reader of the old incarnation")
+	_ = vWriterWake(a) // the answer goes out - and is lost
+	// the identifier is used again by the peer
+	vassert(vDeliver(a, vDataChunk(a, cum+2, 4, false, 2)) == nil, "DATA ok")
+	fresh := a.streams[4]
+	vassert(fresh != nil && fresh != old && fresh.getNumBytesInReassemblyQueue() == 2, "a new incarnation of the stream holds the message")
+	// the peer's timer repeats the request it has had no answer to
+	vassert(vDeliver(a, &chunkReconfig{paramA: req}) == nil, "RECONFIG ok")
+	answered := false
+	for _, raw := range vWriterWake(a) {
+		for _, c := range vDecode(raw).chunks {
+			if rc, ok := c.(*chunkReconfig); ok {
+				if resp, ok := rc.paramA.(*paramReconfigResponse); ok && resp.reconfigResponseSequenceNumber == req.reconfigRequestSequenceNumber {
+					answered = true
+				}
+			}
+		}
+	}
+	vassert(answered, "the repeated request is answered again")
+	vassert(a.streams[4] == fresh && fresh.readErr == nil, "a repeated reset request is not performed a second time: the new incarnation gets no end-of-file")
+	vcover("end")
+}
+
+// C14.L11: a late answer does not touch the next incarnation. This side closed stream 1 (its
+// reset request is out, unanswered); the peer closed its direction too, so the stream is
+// gone here; the application opens the identifier again and writes two messages on the new
+// stream (sequence numbers 0 and 1); only then does the "performed" answer to the old
+// request arrive. The new incarnation keeps its sequence numbers: the next message goes out
+// with number 2 - not 0 again (which the peer, already past it, would never deliver).
+func vh_C14_L11_late_reset_answer_spares_the_new_incarnation() {
+	il := vPick(2) == 1
+	a, _ := vNewAssocOpts(vAssocOpts{interleaving: il})
+	old, err := a.OpenStream(1, PayloadTypeWebRTCBinary)
+	vassert(err == nil, "open stream")
+	vassert(old.Close() == nil, "close")
+	a.cwnd, a.rwnd = 1<<20, 1<<20
+	_ = vWriterWake(a)
+	vassert(len(a.reconfigs) == 1, "the reset request is out")
+	var rsn uint32
+	for k := range a.reconfigs {
+		rsn = k
+	}
+	// the peer resets its direction of the stream: it is gone here
+	peerReq := &paramOutgoingResetRequest{reconfigRequestSequenceNumber: nondetU32(), senderLastTSN: a.peerLastTSN(), streamIdentifiers: []uint16{1}}
+	vassert(vDeliver(a, &chunkReconfig{paramA: peerReq}) == nil, "RECONFIG ok")
+	_, still := a.streams[1]
+	vassert(!still, "the stream is unregistered")
+	_ = vWriterWake(a)
+	fresh, err2 := a.OpenStream(1, PayloadTypeWebRTCBinary)
+	vassert(err2 == nil && fresh != old, "the identifier is opened again: a new stream")
+	for i := 0; i < 2; i++ {
+		_, werr := fresh.WriteSCTP([]byte{byte(i)}, PayloadTypeWebRTCBinary)
+		vassert(werr == nil, "write accepted")
+	}
+	_ = vWriterWake(a)
+	// the answer to the old request arrives late
+	vassert(vDeliver(a, &chunkReconfig{paramA: &paramReconfigResponse{reconfigResponseSequenceNumber: rsn, result: reconfigResultSuccessPerformed}}) == nil, "RECONFIG ok")
+	vassert(len(a.reconfigs) == 0, "the old request is retired")
+	_, werr := fresh.WriteSCTP([]byte{9}, PayloadTypeWebRTCBinary)
+	vassert(werr == nil, "write accepted")
+	var last *chunkPayloadData
+	for _, raw := range vWriterWake(a) {
+		for _, c := range vDecode(raw).chunks {
+			if d, ok := c.(*chunkPayloadData); ok {
+				last = d
+			}
+		}
+	}
+	vassert(last != nil, "the third message goes out")
+	if last != nil {
+		if il {
+			vassert(last.messageIdentifier == 2, "the new incarnation keeps counting: message identifier 2, not 0 again")
+		} else {
+			vassert(last.streamSequenceNumber == 2, "the new incarnation keeps counting: sequence number 2, not 0 again")
+		}
+	}
+	vcover("end")
+}
